@@ -126,6 +126,13 @@ func mkPart(g partGeom) (*memdev.Dev, part.Partition, error) {
 }
 
 func partio(c *hx.Ctx) {
+	// the >= 4 GiB streams (own random stream, oracle only) run beside everything else: ~15 s of CPU in the quick tier
+	bigDone := make(chan struct{})
+	go func() {
+		defer close(bigDone)
+		partioBig(c)
+	}()
+	defer func() { <-bigDone }()
 	r := c.Rng
 	n := c.N(1500, 60000)
 	lssOpts := []int{512, 512, 4096}
@@ -286,4 +293,5 @@ func partio(c *hx.Ctx) {
 	}
 	partioCopy(c)
 	partioDisk(c)
+	partioSpell(c)
 }
